@@ -77,7 +77,7 @@ def gen_program(seed, i):
     rng = random.Random(derive_seed(seed, 'C10', 'prog', i))
     fam = i % 3
     if fam == 0:
-        g = Gen(rng, rt_safe=True, features=('send', 'rand', 'call', 'yinf', 'ahead'))
+        g = Gen(rng, rt_safe=True, features=('send', 'rand', 'call', 'yinf', 'ahead', 'tick2'))
         g.all_seeded = True
     elif fam == 1:
         g = Gen(rng, rt_safe=True, features=('tempo', 'cond', 'flow', 'send', 'rand', 'call', 'yinf'))
@@ -86,7 +86,7 @@ def gen_program(seed, i):
         if g.single_clock == 0 and rng.random() < 0.4:
             g.features.add('beats')
     else:
-        g = Gen(rng, rt_safe=True, features=('pr', 'send', 'rand', 'yinf', 'ahead'))
+        g = Gen(rng, rt_safe=True, features=('pr', 'send', 'rand', 'yinf', 'ahead', 'tick2'))
         g.single_clock = rng.choice([-1, 0])
         if g.single_clock == 0 and rng.random() < 0.5:
             g.features.add('tempo')     # tempo changes while moved tasks are pending
@@ -189,6 +189,10 @@ def normalize(run):
             per.setdefault(e[1], []).append(list(e[:1]) + list(e[2:]))
         elif k in ('tempo', 'beats'):
             per.setdefault(e[1], []).append([k, e[2], e[3], e[4]])
+        elif k == 'tick':
+            # one task object on two clocks: a sequence per clock (the order
+            # between two clock threads is physical)
+            per.setdefault(f'{e[1]}.tick{e[2]}.{e[3]}', []).append(['tick', e[4]])
     return {str(k): v for k, v in per.items()}
 
 
